@@ -16,10 +16,10 @@ open Furiko Furiko.WQ Furiko.StatusLemmas
 /-- every pod of `P` with that name (there is at most one) is finished -/
 def PodFinIn (P : List PodObj) (n : String) : Prop := ∀ p ∈ P, p.pod.name = n → p.pod.isFinished = true
 
-theorem podTask_fin_iff {p : PodObj} {t : Task} (hc : p.pod.creationTimestamp.isSome = true)
-    (h : podTask p = some t) : t.ref.finishTimestamp.isSome = true ↔ p.pod.isFinished = true := by
+theorem podTask_fin_iff {now : Time} {p : PodObj} {t : Task} (hc : p.pod.creationTimestamp.isSome = true)
+    (h : podTask now p = some t) : t.ref.finishTimestamp.isSome = true ↔ p.pod.isFinished = true := by
   unfold podTask Pod.task at h
-  cases hr : p.pod.taskRef with
+  cases hr : p.pod.taskRef now with
   | none => simp [hr] at h
   | some r =>
     simp only [hr, Option.some.injEq] at h
@@ -30,7 +30,7 @@ theorem podTask_fin_iff {p : PodObj} {t : Task} (hc : p.pod.creationTimestamp.is
     | some fin =>
       simp only [hf, Option.some.injEq] at hr
       subst hr
-      simp only
+      simp only [Pod.recordedFinish_isSome]
       constructor
       · intro hfs
         unfold Pod.finishTimestamp at hf
@@ -52,9 +52,9 @@ theorem podTask_fin_iff {p : PodObj} {t : Task} (hc : p.pod.creationTimestamp.is
             · simp only [Option.some.injEq] at hf; subst hf; exact hc
 
 /-- `GetTaskRef` can only panic on a finished pod -/
-theorem podTask_none_finished {p : PodObj} (h : podTask p = none) : p.pod.isFinished = true := by
+theorem podTask_none_finished {now : Time} {p : PodObj} (h : podTask now p = none) : p.pod.isFinished = true := by
   unfold podTask Pod.task at h
-  cases hr : p.pod.taskRef with
+  cases hr : p.pod.taskRef now with
   | some r => simp [hr] at h
   | none =>
     unfold Pod.taskRef at hr
